@@ -197,15 +197,15 @@ class _InstBase:
 
 
 def build_guarded(name, ctor, *a, **kw):
-    """Build an instance; constructor failures (assertion, missing attribute, alarm after 120 s) carry the name."""
+    """Build an instance; constructor failures (assertion, missing attribute, alarm after 60 s) carry the name."""
     import signal
 
     def on_alarm(sig, frm):
-        raise InstanceError("instance %s: elaboration did not finish within 120 s" % name)
+        raise InstanceError("instance %s: elaboration did not finish within 60 s" % name)
     old = None
     try:
         old = signal.signal(signal.SIGALRM, on_alarm)
-        signal.alarm(120)
+        signal.alarm(60)
     except ValueError:
         old = None
     try:
